@@ -9,7 +9,25 @@ sys.dont_write_bytecode = True
 from sa import alpha
 repo = sys.argv[1] if len(sys.argv) > 1 else '/repo'
 out = {}
+sigs = {}
 nf = nn = 0
+
+
+def signal_locals(tree):
+    """Names of plain local variables bound directly to Signal(...) / Signal.like(...) anywhere in the file."""
+    names = set()
+    for n in ast.walk(tree):
+        if isinstance(n, ast.Assign) and isinstance(n.value, ast.Call):
+            f = n.value.func
+            is_sig = (isinstance(f, ast.Name) and f.id == 'Signal') or \
+                (isinstance(f, ast.Attribute) and f.attr == 'like' and isinstance(f.value, ast.Name) and f.value.id == 'Signal')
+            if is_sig:
+                for t in n.targets:
+                    if isinstance(t, ast.Name):
+                        names.add(t.id)
+    return sorted(names)
+
+
 for dp, dn, fn in os.walk(os.path.join(repo, 'luna')):
     dn[:] = sorted(d for d in dn if d != '__pycache__')
     for f in sorted(fn):
@@ -30,5 +48,10 @@ for dp, dn, fn in os.walk(os.path.join(repo, 'luna')):
                 nn += len(lb)
         if d:
             out[rel] = d
+        sl = signal_locals(tree)
+        if sl:
+            sigs[rel] = sl
 json.dump(out, open(alpha.REF_PATH, 'w'), indent=0, sort_keys=True)
+json.dump(sigs, open(os.path.join(os.path.dirname(alpha.REF_PATH), 'signals_ref.json'), 'w'), indent=0, sort_keys=True)
+print('files with local signals', len(sigs), 'names', sum(len(v) for v in sigs.values()))
 print('functions', nf, 'local names', nn, '->', alpha.REF_PATH)
